@@ -53,8 +53,8 @@ def canon_callee(text):
         return info
     segs = [s for s in split_top(t, '::') if s]
     plain = []
-    for s in segs:
-        if s.startswith('<impl'):
+    for i, s in enumerate(segs):
+        if s.startswith('<impl') and i + 1 < len(segs):
             plain.append('<impl>')
             info['self_ty'] = s[5:-1].strip()
         elif s.startswith('<'):
